@@ -16,6 +16,7 @@ import SpiceEv.Cmd.ScheduleGen
 import SpiceEv.Cmd.Battery
 import SpiceEv.Cmd.Strategies
 import SpiceEv.Cmd.Distributed
+import SpiceEv.Cmd.StratDistributed
 open SpiceEv
 
 def allHandlers : List (String × Handler) :=
@@ -28,6 +29,7 @@ def allHandlers : List (String × Handler) :=
   ++ Cmd.Events.handlers
   ++ Cmd.Strategies.handlers
   ++ Cmd.Distributed.handlers
+  ++ Cmd.StratDistributed.handlers
   ++ Cmd.Gen.handlers
   ++ Cmd.Costs.handlers
   ++ Cmd.ScheduleGen.handlers
